@@ -1805,7 +1805,7 @@ func (c *Ctx) genC08SP() {
 		r := Resp{Dest: cfg.Acs, IRT: "id-req-1", II: now - 500, Issuer: &iss, Status: cfg.Success}
 		respSigs := []string{"none", "idp", "attacker"}
 		asigs := []string{"none", "idp", "attacker", "idp2"}
-		wraps := []string{"p", "e", "e", "b", "e", "b-empty", "b-blank", "b-ivonly", "b-truncated", "b-flipped", "b-nokey"}
+		wraps := []string{"p", "e", "e", "b", "e", "b-empty", "b-blank", "b-ivonly", "b-truncated", "b-flipped", "b-nokey", "b-noroot-empty", "b-noroot-space", "b-noroot-comment", "b-noroot-pi", "b-key-empty", "b-key-truncated"}
 		r.Sig = respSigs[c.rng.Intn(3)]
 		k := 1 + c.rng.Intn(2)
 		for j := 0; j < k; j++ {
@@ -1823,11 +1823,11 @@ func (c *Ctx) genC08SP() {
 			}
 			r.Entries = append(r.Entries, a)
 		}
-		if i < 14 {
-			// every malformed-ciphertext flavour at least once, alone and with nothing else wrong
+		if i < 26 {
+			// every malformed-ciphertext / element-free-plaintext flavour at least once, alone and with nothing else wrong
 			r.Sig = "none"
-			r.Entries = []Assn{good("idp", []string{"b-empty", "b-blank", "b-ivonly", "b-truncated", "b-flipped", "b-nokey", "b"}[i%7])}
-			if i >= 7 {
+			r.Entries = []Assn{good("idp", []string{"b-empty", "b-blank", "b-ivonly", "b-truncated", "b-flipped", "b-nokey", "b", "b-noroot-empty", "b-noroot-space", "b-noroot-comment", "b-noroot-pi", "b-key-empty", "b-key-truncated"}[i%13])}
+			if i >= 13 {
 				r.Sig = "idp"
 			}
 		}
